@@ -47,7 +47,12 @@ def unclassify (old : Option Bytes) (new : Bytes) (s : String) : Option Bytes :=
 
 /-- `store` (ro = false) and `storero` (ro = true: the process may not create files in the directory, so
     `os.CreateTemp` fails with EACCES before anything is written — fault `fail 0`, whatever the write fault would be) -/
-def handleStore (ro : Bool) (kind mode k oldS : String) (impl : String) : Verdict := Id.run do
+def handleStore (ro : Bool) (kind mode k oldS newS : String) (impl : String) : Verdict := Id.run do
+    -- a value the encoder refuses (variant bit 4 of the value spec): marshalling fails before any file-system call, the
+    -- store returns an error and nothing has changed — whatever fault mode was armed
+    let unstorable := match newS.splitOn "." with
+      | [_, _, _, _, _, v] => (v.toNat?.getD 0) / 4 % 2 == 1
+      | _ => false
     let some k := k.toNat? | return bad
     let fsI := impl.splitOn ";"
     -- the lengths of the two encodings are library output (JSON); the model takes them from the run
@@ -65,7 +70,7 @@ def handleStore (ro : Bool) (kind mode k oldS : String) (impl : String) : Verdic
       else if mode = "die" then some (if k < b then .die 1 k else .none)
       else none
     let some fault := fault | return bad
-    let fault := if ro then Fault.fail 0 0 [] else fault
+    let fault := if ro || unstorable then Fault.fail 0 0 [] else fault
     let fs1 := exec prog fault fs0
     let st := status prog fault
     let file := classify old newB (fs1 pPath)
@@ -76,10 +81,12 @@ def handleStore (ro : Bool) (kind mode k oldS : String) (impl : String) : Verdic
       | some ist, some ifile, some iget =>
         decide (P18 old newB ist (unclassify old newB ifile)) && decide (P18 old newB ist (unclassify old newB iget)) &&
           -- atomic_store_no_fault / atomic_fail_no_litter: no temp file survives a store that RETURNED (ok or err)
-          (left != 0 || field fsI "left" == some "0")
+          (left != 0 || field fsI "left" == some "0") &&
+          -- a value that cannot be encoded cannot have been stored: the store must not claim success
+          (!unstorable || ist == .err)
       | _, _, _ => false
     let big := if b ≥ 1048576 then "1M" else if b ≥ 65536 then "64k" else if b ≥ 4096 then "4k" else "small"
-    let tag := s!"{if ro then "storero" else "store"}:{kind}:{mode}:{showStatus st}:{(file.take 3).toString}:old={oldS != "-"}:same={c}:{big}"
+    let tag := s!"{if ro then "storero" else if unstorable then "store-unencodable" else "store"}:{kind}:{mode}:{showStatus st}:{(file.take 3).toString}:old={oldS != "-"}:same={c}:{big}"
     return ⟨m, ok, tag⟩
 
 /-- content of the value of class `c` with encoding length `len` (distinct classes get distinct bytes) -/
@@ -283,8 +290,8 @@ def handleLife (kind spelling sibs steps : String) (impl : String) : Verdict := 
 
 def handle (op : String) (args : List String) (impl : String) : Option Verdict :=
   match op, args with
-  | "store", [kind, mode, k, oldS, _newS] => some (handleStore false kind mode k oldS impl)
-  | "storero", [kind, mode, k, oldS, _newS] => some (handleStore true kind mode k oldS impl)
+  | "store", [kind, mode, k, oldS, newS] => some (handleStore false kind mode k oldS newS impl)
+  | "storero", [kind, mode, k, oldS, newS] => some (handleStore true kind mode k oldS newS impl)
   | "seq", [kind, steps] => some (handleSeq kind steps impl)
   | "obj", [kind, steps] => some (handleObj kind steps impl)
   | "life", [kind, spelling, sibs, steps] => some (handleLife kind spelling sibs steps impl)
